@@ -12,7 +12,7 @@ Checked per call (state S, line L, remaining text s):
 from pysmi.lexer.smi import lexerFactory
 from pysmi.parser import dialect as _dialect
 from pysmi import error
-from harness import lexshim
+from harness import lexshim, tok
 
 STATES = ['INITIAL', 'macro', 'choice', 'exports', 'comment']
 MAXN = 6
@@ -133,6 +133,52 @@ def forbidden(i: int, dialect: int, tail: int) -> bool:
     return r[0] == 'lexerr' and r[1] == 1
 
 
+# RFC 2578 section 3.7: ASN.1 keywords that must not appear in an SMIv2 module (written down here, not read from the lexer)
+RFC2578_FORBIDDEN = ['ABSENT', 'ANY', 'BIT', 'BOOLEAN', 'BY', 'COMPONENT', 'COMPONENTS', 'DEFAULT', 'DEFINED',
+                     'ENUMERATED', 'EXPLICIT', 'EXTERNAL', 'FALSE', 'MIN', 'MINUS-INFINITY', 'NULL', 'OPTIONAL', 'PLUS-INFINITY',
+                     'PRESENT', 'PRIVATE', 'REAL', 'SET', 'TAGS', 'TRUE', 'WITH']
+# (APPLICATION and UNIVERSAL are left out: the base SMI modules themselves use tagged types, the lexer accepts them on purpose)
+
+
+def forbidden_seq(i: int, dialect: int, k: int, ctx: int) -> bool:
+    """
+    requires: 0 <= i < len(RFC2578_FORBIDDEN) and 0 <= dialect <= 2 and 0 <= k <= 3 and 0 <= ctx <= 2
+    """
+    # the REAL lexer object of the dialect, untouched by the harness (no shim, no table rewriting), on a concrete text: a
+    # forbidden word after k other identifiers, in three syntactic positions; it must be rejected with the line it stands on
+    w = pick(RFC2578_FORBIDDEN, i)
+    d = pick(['smiV2', 'smiV1', 'smiV1Relaxed'], dialect)
+    k = pick([0, 1, 2, 3], k)
+    ctx = pick([0, 1, 2], ctx)
+    with tok._untraced():
+        from pysmi.lexer.smi import lexerFactory
+        from pysmi.parser import dialect as _dl
+        lx = lexerFactory(**getattr(_dl, d))()
+        head = ''.join('Name%d ' % j for j in range(k))
+        text = head + '\n' + ('SYNTAX %s' % w, 'IMPORTS %s FROM X' % w, '%s ::= INTEGER' % w)[ctx]
+        lx.lexer.input(text)
+        n = 0
+        try:
+            while True:
+                t = lx.lexer.token()
+                if t is None:
+                    return False                    # the forbidden word was tokenised
+                n += 1
+                if n > 40:
+                    return False
+        except error.PySmiLexerError as e:
+            return e.lineno == 2
+        except Exception:
+            return False
+
+
+def lit_alphabet(s):
+    for ch in s:
+        if ch not in "'019aFhHbB ":
+            return False
+    return True
+
+
 def conditions(prop, tier):
     q = tier == 'quick'
     t = 280 if q else 1700
@@ -157,12 +203,22 @@ def conditions(prop, tier):
                             extra_pre=[lenpre, pre],
                             bounds='one token() call from INITIAL, symbolic line number, symbolic text of 1..%d characters starting with a %s '
                                    'character%s' % (n0, tag, ' (sub-shard %s)' % sub[1:] if sub else '')))
+    # hex / binary literals need 4+ characters to have a digit part: a shard over the literal alphabet only
+    for ln in range(n0 + 1, (5 if q else 6) + 1):
+        for z in (True, False):
+            out.append(dict(name='%s.lex.INITIAL.apos-literal.len%d.%s' % (prop, ln, 'zero' if z else 'other'), fn='step', fixed=dict(st=0), timeout=t,
+                            extra_pre=['len(s) == %d' % ln, 's[0] == chr(39)', 'lit_alphabet(s)', "s[1] == '0'" if z else "s[1] != '0'"],
+                            bounds="one token() call from INITIAL on a text of %d characters over the alphabet ' 0 1 9 a F h H b B blank, starting with "
+                                   "an apostrophe (hex and binary literals with leading zeros, odd lengths, upper/lower-case radix letters)" % ln))
     out.append(dict(name='%s.lex.INITIAL.empty' % prop, fn='step', fixed=dict(st=0, s=''), timeout=t, bounds='empty remaining input'))
     for st, n in ((1, 4 if q else 5), (2, 3 if q else 4), (3, 3 if q else 4), (4, 3 if q else 4)):
         out.append(dict(name='%s.lex.%s' % (prop, STATES[st]), fn='step', fixed=dict(st=st), timeout=t,
                         extra_pre=['len(s) <= %d' % n],
                         bounds='one token() call from state %s, symbolic line number, symbolic text of 0..%d characters' % (STATES[st], n)))
     if prop == 'C11':
+        out.append(dict(name='C11.lex.forbidden-real-lexer', fn='forbidden_seq', fixed={}, timeout=t,
+                        bounds='each of the %d ASN.1 keywords RFC 2578 forbids, after 0-3 other identifiers, in a SYNTAX / IMPORTS / type-name position, all three '
+                               'dialects: rejected by the untouched real lexer with the line it stands on (concrete text per solver-explored choice)' % len(RFC2578_FORBIDDEN)))
         out.append(dict(name='C11.lex.forbidden', fn='forbidden', fixed={}, timeout=t,
                         bounds='every forbidden ASN.1 word of <=4 letters, followed by nothing / blank / newline / more text, smiV2 and smiV1 dialect'))
     return out
@@ -172,7 +228,7 @@ def selftests(prop):
     return [('step', dict(st=0, lineno0=3, s='ab\n')), ('step', dict(st=0, lineno0=1, s='"a\r\n"')),
             ('step', dict(st=1, lineno0=1, s='END')), ('step', dict(st=4, lineno0=9, s='x\r\ny')),
             ('step', dict(st=0, lineno0=1, s='-12')), ('step', dict(st=0, lineno0=1, s="'0'H")),
-            ('forbidden', dict(i=0, dialect=0, tail=1))]
+            ('forbidden', dict(i=0, dialect=0, tail=1)), ('forbidden_seq', dict(i=4, dialect=2, k=2, ctx=0))]
 
 
 # ---- direct solver obligations: first-match pre-emption between the rules of the master regex (z3 regex theory) --------
